@@ -358,6 +358,12 @@ macro_rules! overflow {
 }
 
 impl<'de, R: Read<'de>> Parser<R> {
+    /// Remaining nesting budget (observation hook).
+    #[cfg(lexpr_verif)]
+    pub fn verif_remaining_depth(&self) -> u8 {
+        self.remaining_depth
+    }
+
     /// Expect the end of input.
     ///
     /// The `Parser::expect_end` method should be called after the last
@@ -661,6 +667,8 @@ impl<'de, R: Read<'de>> Parser<R> {
     /// `value_iter` method may be more convenient than calling this method in a
     /// loop.
     pub fn next_value(&mut self) -> Result<Option<Value>> {
+        #[cfg(lexpr_verif)]
+        let _verif_depth = crate::verif::DepthGuard::enter();
         let peek = match self.parse_whitespace()? {
             Some(b) => b,
             None => return Ok(None),
@@ -740,6 +748,8 @@ impl<'de, R: Read<'de>> Parser<R> {
     /// `datum_iter` method may be more convenient than calling this method in a
     /// loop.
     pub fn next_datum(&mut self) -> Result<Option<Datum>> {
+        #[cfg(lexpr_verif)]
+        let _verif_depth = crate::verif::DepthGuard::enter();
         let peek = match self.parse_whitespace()? {
             Some(b) => b,
             None => return Ok(None),
@@ -1296,6 +1306,8 @@ impl<'de, R: Read<'de>> Parser<R> {
         self.scratch.push(b'e');
         self.scratch
             .extend_from_slice(buffer.format(exponent).as_bytes());
+        #[cfg(lexpr_verif)]
+        crate::verif::check_utf8("f64_from_parts", &self.scratch);
         // SAFETY: Unsafe should be OK here, as `itoa::Buffer::format()` should
         // never produce non-ASCII output.
         let f: f64 = unsafe { str::from_utf8_unchecked(&self.scratch) }
